@@ -79,6 +79,10 @@ def render(seq, init):
 
 
 CHAINS = [
+    "c = Bernoulli(p)\ny = 0\nx = 0\nwhile true:\n    y = 2*y + c\n    x = x + c*y\nend\n",
+    "c = Categorical(q, 1 - q)\nx = 0\nwhile true:\n    x = 3*x + c\nend\n",
+    "c = Bernoulli(p)\nd = DiscreteUniform(0, 2)\nx = p\nwhile true:\n    if c == 1:\n        x = x + d\n    else:\n        x = x + p\n    end\nend\n",
+    "c = 0 {p} 1 {q} 2\nx = 0\nwhile true:\n    x = x + c**2\nend\n",
     "v = 0\nw = 0\nx = 0\ny = 0\nb = 0\nwhile true:\n    v = v + 2*w\n    w = w + x\n    x = x + 3*y\n    b = Bernoulli(p)\n    y = y + b\nend\n",
     "w = 0\nx = 0\ny = 0\nwhile true:\n    w = w + x\n    x = x + y\n    y = y + p\nend\n",
     "v = 1\nw = 0\nx = 0\ny = 0\nwhile true:\n    v = w\n    w = x\n    x = y\n    y = y + 1 {p} y\nend\n",
